@@ -98,7 +98,7 @@ Proof.
   { intros u. destruct (Nat.eq_dec u t) as [->|Hu]; [right|left]; cbn [s' mk stk].
     - rewrite upd_same; auto.
     - apply upd_other; auto. }
-  destruct I as [Ishape Iout Islots Iword Ifields Iexcl Iheldl Irdead Ichain Inodup Inodupw Iinl Iownl Iownt Iheld Ipop Ione].
+  destruct I as [Ishape Iout Islots Iword Ifields Iexcl Iheldl Irdead Ichain Inodup Inodupw Iinl Iownl Iownt Iheld Ipop Ione Ihnz].
   assert (LN : forall sd x, In x (nodes s g sd) -> ndata m' x = ndata (mem s) x /\ nnext m' x = nnext (mem s) x).
   { intros sd x Hx. destruct (Enod x) as [[E|[E _]]|E]; auto; rewrite (Iownl sd x Hx) in E; discriminate. }
   constructor; auto; cbn [s' mk mem stk nthr g' gset_role gl nown grole].
@@ -161,6 +161,58 @@ Proof.
   - intros u v. destruct (Nat.eq_dec u t) as [->|Hu], (Nat.eq_dec v t) as [->|Hv];
       rewrite ?upd_same, ?upd_other by auto; auto; intros P1 P2;
       first [exfalso; apply (Pp P1 v Hv P2) | exfalso; apply (Pp P2 u Hu P1) | apply Ione; auto].
+  - intros sd. rewrite Eh. apply Ihnz.
+Qed.
+
+(* the new counts after the stepping fiber changed role and stack *)
+Lemma counts_step s g t m' k' r' : (t < nthr s)%nat ->
+  counts (mk s t m' k') (gset_role g t r') =
+  {| f_wl := f_wl (counts s g) + (c_own SW r' k' - c_own SW (grole g t) (stk s t));
+     f_rc := f_rc (counts s g) + (c_own SR r' k' - c_own SR (grole g t) (stk s t));
+     f_wr := f_wr (counts s g) + (c_ann SR r' k' - c_ann SR (grole g t) (stk s t));
+     f_ww := f_ww (counts s g) + (c_ann SW r' k' - c_ann SW (grole g t) (stk s t)) |}.
+Proof.
+  intros Ht. rewrite (counts_change s g _ _ t); auto.
+  - cbn [mk gset_role stk grole]. rewrite !upd_same. reflexivity.
+  - intros u Hu. cbn [mk gset_role stk grole]. rewrite !upd_other by auto. auto.
+Qed.
+
+Lemma counts_keep s g t m' k' r' : (t < nthr s)%nat ->
+  (forall sd, c_ann sd r' k' = c_ann sd (grole g t) (stk s t)) ->
+  (forall sd, c_own sd r' k' = c_own sd (grole g t) (stk s t)) ->
+  counts (mk s t m' k') (gset_role g t r') = counts s g.
+Proof.
+  intros Ht Ca Co. rewrite counts_step by auto. rewrite !Ca, !Co, !Z.sub_diag, !Z.add_0_r.
+  symmetry; apply rwf_eta.
+Qed.
+
+(* inv_gen when the counts do not change *)
+Lemma inv_gen_keep s g t m' k' r' :
+  InvG s g -> (t < nthr s)%nat ->
+  (forall x, mine s g t x \/ (ndata m' x = ndata (mem s) x /\ nnext m' x = nnext (mem s) x)) ->
+  qhead m' = qhead (mem s) -> qtail m' = qtail (mem s) -> word m' = word (mem s) ->
+  (forall u, u <> t -> fnode m' u = fnode (mem s) u) ->
+  (fnode m' t <> O -> nown g (fnode m' t) = OThr t) ->
+  (forall sd, grole g t = RWait sd Popped -> fnode m' t = fnode (mem s) t) ->
+  slot_sched m' = slot_sched (mem s) -> slot_mpmc m' = slot_mpmc (mem s) ->
+  slot_mutex m' = slot_mutex (mem s) -> slot_wait m' = slot_wait (mem s) ->
+  (forall u, u <> t -> fstate m' u = fstate (mem s) u /\ pend m' u = pend (mem s) u /\
+                       blocked m' u = blocked (mem s) u) ->
+  shape m' t r' k' -> role_compat (grole g t) r' ->
+  (forall sd, c_ann sd r' k' = c_ann sd (grole g t) (stk s t)) ->
+  (forall sd, c_own sd r' k' = c_own sd (grole g t) (stk s t)) ->
+  ~ is_wlink (stk s t) -> ~ is_wlink k' ->
+  held_ok (mk s t m' k') (gset_role g t r') t ->
+  (is_asleep (stk s t) -> forall sd, grole g t <> RWait sd Popped) ->
+  pop_ok (mk s t m' k') (gset_role g t r') t ->
+  (is_popper k' -> is_popper (stk s t)) ->
+  InvG (mk s t m' k') (gset_role g t r').
+Proof.
+  intros I Ht Enod Eh Et Ew Ef Eft Efp Es1 Es2 Es3 Es4 Eo Sh Rc Ca Co Nw Nw' Hh Na Po Pp.
+  pose proof (counts_keep s g t m' k' r' Ht Ca Co) as EC.
+  apply inv_gen; auto; rewrite ?EC; try apply I.
+  - rewrite Ew. apply I.
+  - intros P u Hu PU. apply Hu. apply (i_one _ _ I); auto.
 Qed.
 
 (* a step that changes only private things of the stepping fiber *)
@@ -210,7 +262,7 @@ Proof. destruct (start t p k h); reflexivity. Qed.
 
 (* stepping tactic: compute the step for a known stack *)
 Ltac stp Hk :=
-  erewrite step_eq; [| rewrite <- Hk; cbn [kstep ret cret app got kloop];
+  erewrite step_eq; [| rewrite <- Hk; cbn [kstep ksched ret cret app got kloop];
     try change ((ST_RUNNING =? ST_WAITING) || (ST_RUNNING =? ST_DONE) || (ST_RUNNING =? ST_SAVING)) with false;
     try change ((ST_SAVING =? ST_WAITING) || (ST_SAVING =? ST_DONE) || (ST_SAVING =? ST_SAVING)) with true;
     cbv iota; unfold kloop;
@@ -218,7 +270,7 @@ Ltac stp Hk :=
     try (match goal with H : release ?a ?b = _ |- _ => rewrite H end);
     try (match goal with |- context [start ?a ?b ?c ?d] =>
            let x := fresh "st0" in set (x := start a b c d); rewrite (surjective_pairing x); subst x end);
-    cbn [app]; rewrite ?app_nil_r; reflexivity].
+    cbn [app]; rewrite ?app_nil_r; reflexivity]; rewrite ?app_nil_r.
 
 Definition client_top (k : stack rwc) : Prop :=
   match k with [] => True | WReadW _ :: _ => True | CRead _ :: _ => True | _ => False end.
@@ -244,7 +296,9 @@ Ltac local_prems Hk Hr :=
   try (apply client_not_held, start_client);
   try (apply pop_ok_nonpopper; cbn [mk stk]; rewrite upd_same; first [apply client_not_popper, start_client | cbn; tauto]);
   try (intros P; exfalso; revert P; apply client_not_popper, start_client);
-  try (unfold pop_ok; cbn [mk stk mem]; rewrite upd_same; exact Logic.I).
+  try (unfold pop_ok; cbn [mk stk mem]; rewrite upd_same; exact Logic.I);
+  try (unfold held_ok; cbn [mk stk mem]; rewrite upd_same; exact Logic.I);
+  try (match goal with HI : InvG _ _ |- _ => apply (i_ownt _ _ HI) end).
 
 Ltac local g t r' Hk Hr :=
   exists (gset_role g t r'); apply inv_local; auto; local_prems Hk Hr.
@@ -390,19 +444,6 @@ Proof.
   - unfold held_ok. cbn [mk stk]. rewrite upd_same. destruct k' as [|[] ?]; cbn in Nh; tauto.
 Qed.
 
-(* the new counts after the stepping fiber changed role and stack *)
-Lemma counts_step s g t m' k' r' : (t < nthr s)%nat ->
-  counts (mk s t m' k') (gset_role g t r') =
-  {| f_wl := f_wl (counts s g) + (c_own SW r' k' - c_own SW (grole g t) (stk s t));
-     f_rc := f_rc (counts s g) + (c_own SR r' k' - c_own SR (grole g t) (stk s t));
-     f_wr := f_wr (counts s g) + (c_ann SR r' k' - c_ann SR (grole g t) (stk s t));
-     f_ww := f_ww (counts s g) + (c_ann SW r' k' - c_ann SW (grole g t) (stk s t)) |}.
-Proof.
-  intros Ht. rewrite (counts_change s g _ _ t); auto.
-  - cbn [mk gset_role stk grole]. rewrite !upd_same. reflexivity.
-  - intros u Hu. cbn [mk gset_role stk grole]. rewrite !upd_other by auto. auto.
-Qed.
-
 Lemma cas_word s g e : InvG s g -> (word (mem s) 0 =? e) = true -> e = rw_pack (counts s g) /\ rw_unpack e = counts s g.
 Proof.
   intros I B. apply Z.eqb_eq in B. rewrite (i_word _ _ I) in B. subst e. split; auto.
@@ -417,7 +458,7 @@ Proof.
 Qed.
 
 Ltac count_simpl Hk Hr :=
-  rewrite <- ?Hk, <- ?Hr; unfold c_own, c_ann; cbn [tp side_eqb b2z qof Nat.eqb];
+  rewrite <- ?Hk, <- ?Hr; unfold c_own, c_ann; cbn [tp got side_eqb b2z qof Nat.eqb];
   unfold set_wl, set_rc, set_wr, set_ww; cbn [f_wl f_rc f_wr f_ww].
 
 Lemma announce_inv s g t sd p k e :
@@ -453,6 +494,7 @@ Proof.
   - rewrite <- Hk. cbn. tauto.
   - constructor; auto.
   - right. rewrite <- Hr. auto.
+  - exact AN.
   - destruct sd; unfold fields_ok, set_wr, set_ww; cbn [f_wl f_rc f_wr f_ww]; repeat split; lia.
   - destruct sd; unfold set_wr, set_ww; cbn [f_wl f_rc f_wr f_ww]; auto.
   - destruct sd; unfold set_wr, set_ww; cbn [f_wl f_rc f_wr f_ww]; intros; lia.
@@ -461,124 +503,176 @@ Proof.
     destruct (f_ww C =? 0) eqn:E2; [|apply Z.eqb_neq in E2; lia].
     destruct (f_wl C =? 0) eqn:E1; [|apply Z.eqb_neq in E1; assert (f_wl C = 1) by lia; lia].
     destruct (f_wr C =? 0) eqn:E3; [discriminate|apply Z.eqb_neq in E3; apply Rd; lia].
+  - apply pop_ok_nonpopper. cbn [mk stk]. rewrite upd_same. destruct sd; cbn; tauto.
+Qed.
+
+Lemma acquire_inv s g t sd p k e c :
+  Z.of_nat (nthr s) < 2 ^ 21 -> InvG s g -> (t < nthr s)%nat ->
+  [WCasW 0 e (acquire sd e) 5; FC c] = stk s t -> RIdle = grole g t ->
+  run_ok (mem s) t -> busy sd e = false -> (word (mem s) 0 =? e) = true ->
+  InvG (mk s t (set_word (mem s) 0 (acquire sd e)) (got t sd p k 1)) (gset_role g t (ROwn sd)).
+Proof.
+  intros G I Ht Hk Hr RO Bz B.
+  destruct (cas_word _ _ _ I B) as [Ee Eu].
+  pose proof (i_fields _ _ I) as (F1 & F2 & F3 & F4).
+  assert (C0 : ctot (grole g t) (stk s t) <= 0) by (rewrite <- Hk, <- Hr; cbn; lia).
+  pose proof (field_room s g t I Ht G C0) as Room.
+  pose proof (i_excl _ _ I) as Ex. pose proof (i_held_lock _ _ I) as Hl. pose proof (i_rdead _ _ I) as Rd.
+  set (C := counts s g) in *.
+  assert (ZZ : f_wl C = 0 /\ f_wr C = 0 /\ f_ww C = 0 /\ (sd = SW -> f_rc C = 0)).
+  { unfold busy in Bz. destruct sd.
+    - rewrite Eu in Bz. destruct (f_ww C =? 0) eqn:E2; [|discriminate]. destruct (f_wl C =? 0) eqn:E1; [|discriminate].
+      destruct (f_wr C =? 0) eqn:E3; [|discriminate]. apply Z.eqb_eq in E1, E2, E3. repeat split; auto; discriminate.
+    - destruct (e =? 0) eqn:E0; [|discriminate]. apply Z.eqb_eq in E0. rewrite E0 in Eu.
+      rewrite <- Eu. vm_compute. auto. }
+  destruct ZZ as (Z1 & Z2 & Z3 & Z4).
+  assert (NC : counts (mk s t (set_word (mem s) 0 (acquire sd e)) (got t sd p k 1)) (gset_role g t (ROwn sd)) =
+               match sd with SR => set_rc C (f_rc C + 1) | SW => set_wl C 1 end).
+  { rewrite counts_step by auto. fold C. destruct sd; count_simpl Hk Hr; f_equal; lia. }
+  assert (AN : acquire sd e = rw_pack (match sd with SR => set_rc C (f_rc C + 1) | SW => set_wl C 1 end)).
+  { unfold acquire. rewrite Eu. destruct sd; rewrite ?finc_small by lia; reflexivity. }
+  apply inv_cas; auto; rewrite ?NC.
+  - rewrite <- Hk. cbn. tauto.
+  - rewrite <- Hk. cbn. tauto.
+  - destruct sd; constructor; auto.
+  - right. rewrite <- Hr. auto.
+  - exact AN.
+  - destruct sd; unfold fields_ok, set_rc, set_wl; cbn [f_wl f_rc f_wr f_ww]; repeat split; lia.
+  - destruct sd; unfold set_rc, set_wl; cbn [f_wl f_rc f_wr f_ww]; intros; auto; lia.
+  - destruct sd; unfold set_rc, set_wl; cbn [f_wl f_rc f_wr f_ww]; intros; lia.
+  - destruct sd; unfold set_rc, set_wl; cbn [f_wl f_rc f_wr f_ww]; intros; lia.
   - destruct sd; cbn; tauto.
   - destruct sd; cbn; tauto.
   - apply pop_ok_nonpopper. cbn [mk stk]. rewrite upd_same. destruct sd; cbn; tauto.
   - destruct sd; cbn; tauto.
 Qed.
 
-Section Main.
-Variable s : st. Variable g : ghost. Variable t : nat.
-Hypothesis G : Z.of_nat (nthr s) < 2 ^ 21.
-Hypothesis I : InvG s g. Hypothesis R : status_of s t = SReady.
+Definition after_release (t : nat) (p : list rop) (k : nat) (r : Z) (h : handoff) : stack rwc :=
+  match h with
+  | HoWriter => [KHead 0 1 0; FC (UWoke p k r)]
+  | HoReaders cnt => [KHead 1 cnt 0; FC (UWoke p k r)]
+  | HoNone => snd (start t p (S k) HNone)
+  end.
 
-Lemma step_inv_local_cases : Inv (fst (step s t)).
+Lemma out_not_popper s g u : InvG s g -> is_popper (stk s u) -> (u < nthr s)%nat.
 Proof.
-  pose proof (ready_lt _ _ R) as Ht.
-  pose proof (i_shape _ _ I t) as Sh.
-  remember (stk s t) as k0 eqn:Hk. remember (grole g t) as r0 eqn:Hr.
-  destruct Sh.
-  - (* done *) exfalso. unfold status_of in R. rewrite <- Hk in R. destruct (t <? nthr s)%nat; discriminate.
-  - (* start *) stp Hk. local g t RIdle Hk Hr.
-    apply (start_shape _ t p 1%nat HNone). apply run_ok_fstate; auto.
-  - (* lsnap *) destruct (busy sd (word (mem s) 0)) eqn:B; stp Hk; local g t RIdle Hk Hr; constructor; auto.
-  - (* lcasw *) destruct (word (mem s) 0 =? e) eqn:B.
-    + admit.
-    + stp Hk. local g t RIdle Hk Hr. constructor; auto.
-  - (* lcasa *) destruct (word (mem s) 0 =? e) eqn:B.
-    + admit.
-    + stp Hk. local g t RIdle Hk Hr. constructor; auto.
-  - (* tsnap *) destruct (busy sd (word (mem s) 0)) eqn:B; stp Hk; local g t RIdle Hk Hr.
-    + apply (start_shape _ t p (S k) HNone); auto.
-    + constructor; auto.
-  - (* tcasa *) destruct (word (mem s) 0 =? e) eqn:B.
-    + admit.
-    + stp Hk. local g t RIdle Hk Hr. constructor; auto.
-  - (* gotr *) stp Hk. local g t (ROwn SR) Hk Hr.
-    apply (start_shape _ t p (S k) (HRead (cell (mem s) 0))); auto.
-  - (* gotw *) stp Hk. local g t (ROwn SW) Hk Hr.
-    apply (start_shape _ t p (S k) HWrite); auto.
-  - (* ucheck *) stp Hk. local g t (ROwn sd) Hk Hr. constructor; auto.
-  - (* usnap *) destruct (release sd (word (mem s) 0)) as [n h] eqn:B. stp Hk.
-    local g t (ROwn sd) Hk Hr. econstructor; eauto.
-  - (* ucas *) destruct (word (mem s) 0 =? e) eqn:B.
-    + admit.
-    + stp Hk. local g t (ROwn sd) Hk Hr. constructor; auto.
-  - (* khead *) stp Hk. local g t RIdle Hk Hr.
-    + constructor; auto.
-    + unfold pop_ok. cbn [mk stk mem]. rewrite upd_same. reflexivity.
-  - (* knext *) pose proof (i_pop _ _ I t) as Po. unfold pop_ok in Po. rewrite <- Hk in Po.
-    destruct (nnext (mem s) h) as [|nx'] eqn:B.
-    + assert (C : 0 <? cnt = true) by (apply Z.ltb_lt; unfold pq in *; lia).
-      stp Hk. local g t RIdle Hk Hr. constructor; auto.
-    + stp Hk. local g t RIdle Hk Hr.
-      * constructor; auto.
-      * unfold pop_ok. cbn [mk stk mem]. rewrite upd_same. auto.
-  - (* kspin1 *) pose proof H as (A & _). stp Hk. rewrite A. local g t RIdle Hk Hr. constructor; auto.
-  - (* kspin2 *) assert (C : wc <? cnt = true) by (apply Z.ltb_lt; unfold pq in *; lia).
-    stp Hk. local g t RIdle Hk Hr. constructor; auto.
-  - (* ksethead *) admit.
-  - (* kdata *) pose proof (i_pop _ _ I t) as Po. unfold pop_ok in Po. rewrite <- Hk in Po.
-    stp Hk. local g t RIdle Hk Hr.
-    + constructor; auto.
-    + unfold pop_ok. cbn [mk stk mem]. rewrite upd_same.
-      destruct Po as (A & B & C & f & (sd' & D1 & D2 & D3) & E). split; auto. split; auto.
-      exists f. split; auto. exists sd'. repeat split; auto. cbn.
-      assert (f <> t) by (intros ->; congruence). rewrite upd_other; auto.
-  - (* kcopy *) admit.
-  - (* kout *) admit.
-  - (* kstate *) admit.
-  - (* kready *) admit.
-  - (* wsaving *) stp Hk. local g t (RWait sd Pre) Hk Hr.
-    destruct H as (A & B & C & D). constructor; cbn; rewrite ?upd_same; auto.
-  - (* wdata *) admit.
-  - (* wnext *) admit.
-  - (* wxchg *) admit.
-  - (* wlink *) admit.
-  - (* pyread *) pose proof H as (A & B & C). stp Hk. rewrite B. local g t (RWait sd w) Hk Hr. constructor; auto.
-  - (* pynext *) stp Hk. local g t (RWait sd w) Hk Hr. constructor; auto.
-  - (* pswread *) pose proof H as (A & B & C).
-    assert (E : (fstate (mem s) t =? ST_RUNNING) = false) by (rewrite B; reflexivity).
-    stp Hk. local g t (RWait sd w) Hk Hr. constructor; auto.
-  - (* pswdone *) stp Hk. local g t (RWait sd w) Hk Hr. constructor; auto.
-  - (* pmread *) pose proof H as (A & B & C).
-    assert (E : (fstate (mem s) t =? ST_SAVING) = true) by (rewrite B; reflexivity).
-    stp Hk. local g t (RWait sd w) Hk Hr. constructor; auto.
-  - (* pmflip *) destruct H as (A & B & C & D & E & F).
-    assert (STP : forall m1 k1, match pend (mem s) t with
-              | S k' => (set_pend (set_fstate (mem s) t ST_WAITING) t k', Resume :: YLoop :: [FC (LWoken sd p k)])
-              | O => (set_blocked (set_fstate (mem s) t ST_WAITING) t true, Asleep :: YLoop :: [FC (LWoken sd p k)])
-              end = (m1, k1) -> fst (step s t) = mk s t m1 k1).
-    { intros m1 k1 E1. unfold step. rewrite <- Hk. cbn [kstep].
-      rewrite run_slots_empty by (apply (i_slots _ _ I)). unfold sleep. cbn [pend set_fstate].
-      destruct (pend (mem s) t); inversion E1; subst; reflexivity. }
-    destruct A as [-> | [-> | ->]]; rewrite D in STP.
-    + rewrite (STP _ _ eq_refl). local g t (RWait sd InL) Hk Hr.
-      constructor; cbn; rewrite ?upd_same; auto; discriminate.
-    + rewrite (STP _ _ eq_refl). local g t (RWait sd Popped) Hk Hr.
-      constructor; cbn; rewrite ?upd_same; auto; discriminate.
-    + rewrite (STP _ _ eq_refl). exists (gset_role g t (RWait sd Resumed)). apply inv_local; auto; local_prems Hk Hr.
-      * constructor; cbn; rewrite ?upd_same; auto.
-      * right. rewrite <- Hr. auto.
-  - (* asleep *) assert (B : blocked (mem s) t = false).
-    { unfold status_of in R. rewrite <- Hk in R. cbn [kstatus] in R. destruct (t <? nthr s)%nat; [|discriminate].
-      destruct (blocked (mem s) t); [discriminate|reflexivity]. }
-    assert (w = Woken) as -> by (destruct w; congruence).
-    stp Hk. exists (gset_role g t (RWait sd Resumed)). apply inv_local; auto; local_prems Hk Hr.
-    + constructor; auto.
-    + right. rewrite <- Hr. auto.
-    + intros _ sd'. rewrite <- Hr. discriminate.
-  - (* resume *) stp Hk. local g t (RWait sd Resumed) Hk Hr.
-    apply sh_ryread. apply run_ok_fstate; auto.
-  - (* ryread *) pose proof H as (A & B). stp Hk. rewrite A. local g t (RWait sd Resumed) Hk Hr. constructor; auto.
-  - (* rynext *) stp Hk. exists (gset_role g t (ROwn sd)). apply inv_local; auto; local_prems Hk Hr.
-    + destruct sd; constructor; auto.
-    + right. rewrite <- Hr. auto.
-    + intros sd0. rewrite <- Hk, <- Hr. destruct sd, sd0; reflexivity.
-    + intros sd0. rewrite <- Hk, <- Hr. destruct sd, sd0; reflexivity.
-    + destruct sd; cbn; tauto.
-    + destruct sd; cbn; tauto.
-    + apply pop_ok_nonpopper. cbn [mk stk]. rewrite upd_same. destruct sd; cbn; tauto.
-    + destruct sd; cbn; tauto.
-Abort.
-End Main.
+  intros I P. destruct (Nat.lt_ge_cases u (nthr s)); auto.
+  destruct (i_out _ _ I u H) as [p E]. rewrite E in P. cbn in P. tauto.
+Qed.
+
+Lemma release_SR C : fields_ok C -> 0 < f_rc C -> (0 < f_wr C -> 0 < f_ww C) ->
+  release SR (rw_pack C) =
+  if f_rc C =? 1 then
+    (if f_ww C =? 0 then (rw_pack (set_rc C 0), HoNone)
+     else (rw_pack (set_ww (set_wl (set_rc C 0) 1) (f_ww C - 1)), HoWriter))
+  else (rw_pack (set_rc C (f_rc C - 1)), HoNone).
+Proof.
+  intros F R1 Rd. pose proof F as (F1 & F2 & F3 & F4). unfold release. rewrite rw_unpack_pack by auto.
+  rewrite fdec_small by lia. unfold set_rc, set_wl, set_ww, set_wr. cbn [f_wl f_rc f_wr f_ww].
+  destruct (f_rc C =? 1) eqn:E1.
+  - apply Z.eqb_eq in E1. rewrite E1. cbn [Z.sub Z.eqb andb Z.pos_sub].
+    destruct (f_ww C =? 0) eqn:E2; cbn [negb].
+    + apply Z.eqb_eq in E2. assert (E3 : f_wr C = 0) by lia. rewrite E3. reflexivity.
+    + apply Z.eqb_neq in E2. rewrite fdec_small by lia. reflexivity.
+  - apply Z.eqb_neq in E1. destruct (f_rc C - 1 =? 0) eqn:E0; [apply Z.eqb_eq in E0; lia|]. reflexivity.
+Qed.
+
+Lemma release_SW C : fields_ok C -> f_wl C = 1 ->
+  release SW (rw_pack C) =
+  if f_ww C =? 0 then
+    (if f_wr C =? 0 then (rw_pack (set_wl C 0), HoNone)
+     else (rw_pack (set_wr (set_rc (set_wl C 0) (f_wr C)) 0), HoReaders (f_wr C)))
+  else (rw_pack (set_ww (set_wl C 1) (f_ww C - 1)), HoWriter).
+Proof.
+  intros F W1. pose proof F as (F1 & F2 & F3 & F4). unfold release. rewrite rw_unpack_pack by auto.
+  unfold set_rc, set_wl, set_ww, set_wr. cbn [f_wl f_rc f_wr f_ww andb].
+  destruct (f_ww C =? 0) eqn:E2; cbn [negb].
+  - destruct (f_wr C =? 0) eqn:E3; cbn [negb]; reflexivity.
+  - apply Z.eqb_neq in E2. rewrite fdec_small by lia. reflexivity.
+Qed.
+
+Ltac fsimp := unfold fields_ok, set_wl, set_rc, set_wr, set_ww; cbn [f_wl f_rc f_wr f_ww].
+
+Lemma release_inv s g t sd p k r e n h :
+  Z.of_nat (nthr s) < 2 ^ 21 -> InvG s g -> (t < nthr s)%nat ->
+  [WCasW 0 e n 5; FC (UCas sd p k r h)] = stk s t -> ROwn sd = grole g t ->
+  run_ok (mem s) t -> release sd e = (n, h) -> (word (mem s) 0 =? e) = true ->
+  InvG (mk s t (set_word (mem s) 0 n) (after_release t p k r h)) (gset_role g t RIdle).
+Proof.
+  intros G I Ht Hk Hr RO Rel B.
+  destruct (cas_word _ _ _ I B) as [Ee Eu].
+  pose proof (i_fields _ _ I) as F. pose proof F as (F1 & F2 & F3 & F4).
+  pose proof (i_excl _ _ I) as Ex. pose proof (i_held_lock _ _ I) as Hl. pose proof (i_rdead _ _ I) as Rd.
+  pose proof (own_le_count s g sd t I Ht) as Own. rewrite <- Hk, <- Hr in Own.
+  unfold c_own in Own. rewrite side_eqb_refl in Own. cbn [b2z tp] in Own.
+  assert (NoPop : (match sd with SW => True | SR => f_rc (counts s g) = 1 end) ->
+                  forall u, u <> t -> ~ is_popper (stk s u)).
+  { intros Last u Hu P. pose proof (out_not_popper _ _ _ I P) as Hun.
+    destruct (popper_owns s g u I Hun P) as (sd' & v & Hv & Ov & Rv).
+    assert (v <> t) by (intros ->; rewrite <- Hr in Rv; destruct Rv as [?|[? ?]]; discriminate).
+    pose proof (own2_le_count s g sd' t v I Ht Hv ltac:(auto)) as O2.
+    pose proof (own_le_count s g sd' v I Hv) as O1.
+    rewrite <- Hk, <- Hr in O2. unfold c_own at 1 in O2. cbn [tp] in O2.
+    destruct sd, sd'; cbn [side_eqb b2z] in O2; lia. }
+  remember (counts s g) as C eqn:HC. rewrite Ee in Rel.
+  destruct sd.
+  - (* rdunlock *)
+    assert (Wl0 : f_wl C = 0) by lia.
+    rewrite release_SR in Rel by (auto; lia).
+    destruct (f_rc C =? 1) eqn:E1; [destruct (f_ww C =? 0) eqn:E2|];
+      inversion Rel; subst n h; cbn [after_release]; clear Rel;
+      rewrite ?Z.eqb_eq, ?Z.eqb_neq in *.
+    + assert (E3 : f_wr C = 0) by (destruct (Z.eq_dec (f_wr C) 0); auto; assert (0 < f_ww C) by (apply Rd; lia); lia).
+      assert (NC : counts (mk s t (set_word (mem s) 0 (rw_pack (set_rc C 0))) (snd (start t p (S k) HNone)))
+                          (gset_role g t RIdle) = set_rc C 0).
+      { rewrite counts_step by auto. rewrite <- HC. count_simpl Hk Hr. rewrite !start_tp. f_equal; lia. }
+      apply inv_cas; auto; rewrite ?NC; local_prems Hk Hr;
+        try (right; rewrite <- Hr; auto; fail); try (fsimp; repeat split; intros; lia);
+        try (intros _; apply NoPop; first [lia | exact Logic.I]).
+      * apply (start_shape _ t p (S k) HNone); auto.
+    + assert (NC : counts (mk s t (set_word (mem s) 0 (rw_pack (set_ww (set_wl (set_rc C 0) 1) (f_ww C - 1))))
+                              [KHead 0 1 0; FC (UWoke p k r)])
+                          (gset_role g t RIdle) = set_ww (set_wl (set_rc C 0) 1) (f_ww C - 1)).
+      { rewrite counts_step by auto. rewrite <- HC. count_simpl Hk Hr. f_equal; lia. }
+      apply inv_cas; auto; rewrite ?NC; local_prems Hk Hr;
+        try (right; rewrite <- Hr; auto; fail); try (fsimp; repeat split; intros; lia);
+        try (intros _; apply NoPop; first [lia | exact Logic.I]).
+      * apply (sh_khead _ _ SW); auto. unfold pq; lia.
+    + assert (NC : counts (mk s t (set_word (mem s) 0 (rw_pack (set_rc C (f_rc C - 1)))) (snd (start t p (S k) HNone)))
+                          (gset_role g t RIdle) = set_rc C (f_rc C - 1)).
+      { rewrite counts_step by auto. rewrite <- HC. count_simpl Hk Hr. rewrite !start_tp. f_equal; lia. }
+      apply inv_cas; auto; rewrite ?NC; local_prems Hk Hr;
+        try (right; rewrite <- Hr; auto; fail); try (fsimp; repeat split; intros; lia);
+        try (intros _; apply NoPop; first [lia | exact Logic.I]).
+      * apply (start_shape _ t p (S k) HNone); auto.
+  - (* wrunlock *)
+    assert (Wl1 : f_wl C = 1) by lia. assert (Rc0 : f_rc C = 0) by auto.
+    rewrite release_SW in Rel by auto.
+    destruct (f_ww C =? 0) eqn:E2; [destruct (f_wr C =? 0) eqn:E3|];
+      inversion Rel; subst n h; cbn [after_release]; clear Rel;
+      rewrite ?Z.eqb_eq, ?Z.eqb_neq in *.
+    + assert (NC : counts (mk s t (set_word (mem s) 0 (rw_pack (set_wl C 0))) (snd (start t p (S k) HNone)))
+                          (gset_role g t RIdle) = set_wl C 0).
+      { rewrite counts_step by auto. rewrite <- HC. count_simpl Hk Hr. rewrite !start_tp. f_equal; lia. }
+      apply inv_cas; auto; rewrite ?NC; local_prems Hk Hr;
+        try (right; rewrite <- Hr; auto; fail); try (fsimp; repeat split; intros; lia);
+        try (intros _; apply NoPop; first [lia | exact Logic.I]).
+      * apply (start_shape _ t p (S k) HNone); auto.
+    + assert (NC : counts (mk s t (set_word (mem s) 0 (rw_pack (set_wr (set_rc (set_wl C 0) (f_wr C)) 0)))
+                              [KHead 1 (f_wr C) 0; FC (UWoke p k r)])
+                          (gset_role g t RIdle) = set_wr (set_rc (set_wl C 0) (f_wr C)) 0).
+      { rewrite counts_step by auto. rewrite <- HC. count_simpl Hk Hr. f_equal; lia. }
+      apply inv_cas; auto; rewrite ?NC; local_prems Hk Hr;
+        try (right; rewrite <- Hr; auto; fail); try (fsimp; repeat split; intros; lia);
+        try (intros _; apply NoPop; first [lia | exact Logic.I]).
+      * apply (sh_khead _ _ SR); auto. unfold pq; lia.
+    + assert (NC : counts (mk s t (set_word (mem s) 0 (rw_pack (set_ww (set_wl C 1) (f_ww C - 1))))
+                              [KHead 0 1 0; FC (UWoke p k r)])
+                          (gset_role g t RIdle) = set_ww (set_wl C 1) (f_ww C - 1)).
+      { rewrite counts_step by auto. rewrite <- HC. count_simpl Hk Hr. f_equal; lia. }
+      apply inv_cas; auto; rewrite ?NC; local_prems Hk Hr;
+        try (right; rewrite <- Hr; auto; fail); try (fsimp; repeat split; intros; lia);
+        try (intros _; apply NoPop; first [lia | exact Logic.I]).
+      * apply (sh_khead _ _ SW); auto. unfold pq; lia.
+Qed.
+
